@@ -6,7 +6,7 @@ from xml.sax.saxutils import escape, quoteattr
 OVF_NS = "http://schemas.dmtf.org/ovf/envelope/1"
 RASD_NS = "http://schemas.dmtf.org/wbem/wscim/1/cim-schema/2/CIM_ResourceAllocationSettingData"
 VBOX_NS = "http://www.virtualbox.org/"
-DISK_TYPES = [None, "disk", "scsi-hardDisk", "ata-hardDisk", "Disk", "SCSI-HARDDISK"]
+DISK_TYPES = [None, "", "disk", "scsi-hardDisk", "ata-hardDisk", "Disk", "SCSI-HARDDISK"]
 NON_DISK_TYPES = ["cdrom-image", "cdrom-raw", "atapi-cdrom", "CDROM-IMAGE"]
 NAMECH = "abcdefghXYZ0123456789 _-.()é日😀#=;!'&"
 
@@ -138,6 +138,7 @@ def gen_ovf(rng, doctype: str = "", lead: str = ""):
                 # removable media pointing into the disk section / references (VirtualBox style): not a hard disk
                 host = ("ovf:/disk/" + rng.choice(list(disks))) if disks and rng.random() < 0.7 else ("ovf:/file/" + rng.choice(list(files)) if files else None)
             items.append((rt, host))
+    split_hw = rng.random() < 0.3
     x = ['<?xml version="1.0" encoding="UTF-8"?>', lead, doctype]
     nsdecl = f' xmlns:{op}="{OVF_NS}" xmlns:{rp}="{RASD_NS}" xmlns:vssd="http://schemas.dmtf.org/wbem/wscim/1/cim-schema/2/CIM_VirtualSystemSettingData"'
     if default_ns:
@@ -158,6 +159,9 @@ def gen_ovf(rng, doctype: str = "", lead: str = ""):
             parts.append(f"<{rp}:HostResource>{escape(host)}</{rp}:HostResource>")
         rng.shuffle(parts)
         x.append(f"<{E('Item')}>" + "".join(parts) + f"</{E('Item')}>")
+        if split_hw and n + 1 < len(items) and rng.random() < 0.4:
+            # the hardware of one virtual system may be described by several hardware sections (one per supported platform)
+            x.append(f"</{E('VirtualHardwareSection')}><{E('VirtualHardwareSection')}><{E('Info')}>more hw</{E('Info')}>")
     x.append(f"</{E('VirtualHardwareSection')}></{E('VirtualSystem')}></{E('Envelope')}>")
     return "\n".join(p for p in x if p), sorted(want)
 
@@ -261,6 +265,13 @@ def doctypes(root: str, canary_uri: str, http_uri: str = "http://127.0.0.1:9/x")
         "ext-parameter": f'<!DOCTYPE {root} [<!ENTITY % p SYSTEM "{canary_uri}"> %p;]>',
         "unparsed": f'<!DOCTYPE {root} [<!NOTATION n SYSTEM "x"><!ENTITY u SYSTEM "{canary_uri}" NDATA n>]>',
         "public-ext": f'<!DOCTYPE {root} [<!ENTITY x PUBLIC "-//X//Y" "{canary_uri}">]>',
+        # declarations whose literal is empty (empty replacement text, empty system identifier = the document itself) declare
+        # an entity all the same
+        "internal-empty": f'<!DOCTYPE {root} [<!ENTITY a "">]>',
+        "ext-empty-sysid": f'<!DOCTYPE {root} [<!ENTITY x SYSTEM "">]>',
+        "param-empty": f'<!DOCTYPE {root} [<!ENTITY % p "">]>',
+        "param-ext-empty-sysid": f'<!DOCTYPE {root} [<!ENTITY % p SYSTEM "">]>',
+        "public-empty-ids": f'<!DOCTYPE {root} [<!ENTITY x PUBLIC "" "">]>',
         "ext-dtd-file": f'<!DOCTYPE {root} SYSTEM "{canary_uri}">',
         "ext-dtd-http": f'<!DOCTYPE {root} SYSTEM "{http_uri}">',
         "doctype-only": f"<!DOCTYPE {root}>",
@@ -270,8 +281,9 @@ def doctypes(root: str, canary_uri: str, http_uri: str = "http://127.0.0.1:9/x")
     }
 
 
-ENTITY_CLASSES = ["internal-used", "internal-unused", "bomb", "wide-bomb", "ext-general-file", "ext-general-http", "ext-parameter", "unparsed", "public-ext"]
-ENTITY_REF = {"internal-used": "&a;", "bomb": "&e8;", "wide-bomb": "&big;" * 48, "ext-general-file": "&x;", "ext-general-http": "&x;", "public-ext": "&x;"}
+ENTITY_CLASSES = ["internal-used", "internal-unused", "bomb", "wide-bomb", "ext-general-file", "ext-general-http", "ext-parameter", "unparsed", "public-ext",
+                  "internal-empty", "ext-empty-sysid", "param-empty", "param-ext-empty-sysid", "public-empty-ids"]
+ENTITY_REF = {"internal-used": "&a;", "internal-empty": "&a;", "bomb": "&e8;", "wide-bomb": "&big;" * 48, "ext-general-file": "&x;", "ext-general-http": "&x;", "public-ext": "&x;"}
 LEADS = ["", "<!-- exported by a tool -->\n", '<?xml-stylesheet type="text/xsl" href="s.xsl"?>\n', "\n\n   \n", "<!-- a --><!-- b -->\n<?pi x?>\n",
          # long prologs: nothing bounds what may precede the DOCTYPE (licence banners, runs of PIs, blank padding)
          "<!-- " + "licence text " * 400 + "-->\n", "<?pi " + "x" * 60 + "?>\n" * 1 + "<?note y?>\n" * 900, " " * 5000 + "\n" * 3000,
